@@ -62,6 +62,11 @@ func VerifC10_type5_verify_binding() {
 	flipped := tokens.Token{TokenType: tok.TokenType, Nonce: tok.Nonce, Context: tok.Context, KeyID: tok.KeyID, Authenticator: vBytes("auth2", 64, 64)}
 	vAssume(!vBytesEq(flipped.Authenticator, auth))
 	vAssert(issuer.Verify(flipped) != nil, "any-changed-authenticator-is-rejected")
+	// the genuine authenticator followed by anything, or cut short, is not the authenticator
+	longer := tokens.Token{TokenType: tok.TokenType, Nonce: tok.Nonce, Context: tok.Context, KeyID: tok.KeyID, Authenticator: append(append([]byte{}, auth...), vBytesC("auth_suffix", 1, 2)...)}
+	vAssert(issuer.Verify(longer) != nil, "extended-authenticator-is-rejected")
+	shorter := tokens.Token{TokenType: tok.TokenType, Nonce: tok.Nonce, Context: tok.Context, KeyID: tok.KeyID, Authenticator: auth[:len(auth)-vSplit(vInt("auth_cut", 1, 2), 1, 2)]}
+	vAssert(issuer.Verify(shorter) != nil, "truncated-authenticator-is-rejected")
 
 	key2, err2 := oprf.GenerateKey(oprf.SuiteRistretto255, rand.Reader)
 	vAssume(err2 == nil)
